@@ -23,13 +23,16 @@ EXTENDS Naturals, Sequences, TLC
 CONSTANTS Ctx, Esc, RseBackslash, DocEscapes
 \* RseBackslash: TRUE iff remove_string_escapes also escapes backslash / newline characters (the repaired primitive)
 \* DocEscapes:   TRUE iff safe_docstring neutralises backslashes and triple quotes itself (the repaired macro)
-Classes == {"DQ", "SQ", "BS", "NL", "CR", "LB", "RB", "N", "X"}
+\* AST: a character outside the BMP | LS: U+2028 (a line break for str.splitlines, not for the Python tokenizer) | FF: form feed
+Classes == {"DQ", "SQ", "BS", "NL", "CR", "LB", "RB", "N", "X", "AST", "LS", "FF"}
 
+U6 == <<"BS", "X", "X", "X", "X", "X">>                                 \* a \uXXXX escape
 \* ---- escapers: class -> sequence of output classes
 Rse(c) == IF c = "DQ" THEN <<"BS", "DQ">>
           ELSE IF RseBackslash /\ c = "BS" THEN <<"BS", "BS">>
           ELSE IF RseBackslash /\ c = "NL" THEN <<"BS", "N">>
           ELSE IF RseBackslash /\ c = "CR" THEN <<"BS", "X">>          \* \r
+          ELSE IF RseBackslash /\ c \in {"LS", "FF"} THEN U6              \* \u2028, \u000c: every character that splits lines is escaped
           ELSE <<c>>
 \* repr(): output is a Python literal; modelled at the level of its CONTENT inside quotes chosen by repr (always consistent):
 \* backslash doubled, newline as \n, the surrounding quote escaped - content never terminates the literal
@@ -43,7 +46,7 @@ Out(c) == CASE Esc = "none" -> <<c>>
             [] Esc = "repr_rse" -> FlatMap(Repr, Rse(c))
             [] Esc = "doc" -> Doc(c)
             [] Esc = "doc_rse" -> FlatMap(Doc, Rse(c))
-            [] Esc = "sanitize" -> IF c \in {"N", "X"} THEN <<c>> ELSE <<>>
+            [] Esc = "sanitize" -> IF c \in {"N", "X", "AST"} THEN <<c>> ELSE <<>>
             [] OTHER -> <<c>>
 
 \* ---- tokenizers.  ls: "in" | "esc" (after a backslash) | "q1" | "q2" (closing quotes of a triple seen) | "out" (literal closed) | "err"
@@ -51,7 +54,7 @@ Out(c) == CASE Esc = "none" -> <<c>>
 Quote == IF Ctx \in {"SQ", "REPR"} THEN "SQ" ELSE "DQ"
 Step(ls, c) ==
   IF ls \in {"out", "err"} THEN ls
-  ELSE IF Ctx = "IDENT" THEN (IF c \in {"N", "X"} THEN "in" ELSE "err")
+  ELSE IF Ctx = "IDENT" THEN (IF c \in {"N", "X", "AST"} THEN "in" ELSE "err")
   ELSE IF Ctx = "TDQ" THEN
     (CASE ls = "esc" -> "in"
        [] c = "BS" -> "esc"
@@ -80,6 +83,7 @@ Faithful(c, o) ==      \* does the decoder reconstruct c from o (given no pendin
   IF Esc = "sanitize" THEN TRUE           \* identifiers are not meant to reproduce the text
   ELSE IF o = <<>> THEN FALSE
   ELSE IF Len(o) = 1 /\ o[1] = "BS" THEN TRUE       \* decided by the next character (pend)
+  ELSE IF o = U6 THEN c \in {"LS", "FF"}            \* the \uXXXX escape of that very character
   ELSE Decoded(o) = c
 
 FeedClass(c) ==
